@@ -104,6 +104,8 @@ def export_to_yaml(statechart: Statechart, filepath: str = None) -> str:
     # Block style only: in flow style, some scalars (e.g. "? a", ": a") and long
     # entries are emitted in a form that cannot be parsed back
     yml.default_flow_style = False
+    # Do not fold long lines: folding loses consecutive or special spaces
+    yml.width = 2 ** 31 - 1
     yml.dump(export_to_dict(statechart), output)
 
     if filepath:
